@@ -282,14 +282,13 @@ class AnnounceOracle:
         """is an offer with TTL>0 at T forbidden because the instance is stopped?"""
         if ins.running:
             return False
-        st = ins.stop
-        if st is None:
+        if not ins.stops:
             return True  # never started
-        if st["tx"] is not None:
-            return True  # the StopOffer already left
-        if st["expect"] == "none":
-            return True
-        return T > self._stop_window(st) + RES
+        # allowed only while some stop's StopOffer is still due: what was queued before that stop leaves before it
+        for st in ins.stops:
+            if st["tx"] is None and st["expect"] != "none" and T <= self._stop_window(st) + RES:
+                return False
+        return True
 
     def _mc_offer(self, ins, T, e, stop_follows=False):
         self._content(ins, e, "multicast offer")
